@@ -270,14 +270,10 @@ theorem q_gateFire (s : State) (ch : Option Int) (ok : Bool) : Quiet (gateFire s
   · exact (q_openCore _ ch ok).trans hg
 
 theorem q_retryOpen (s : State) (ch : Option Int) (ok : Bool) : Quiet (retryOpen s ch ok).1 s := by
-  unfold retryOpen
-  split
-  · exact Quiet.refl _
-  · split
-    · exact Quiet.refl _
-    · split
-      · exact Quiet.refl _
-      · exact q_openCore s ch ok
+  rcases retryOpen_cases s ch ok with h | h | ⟨_, _, _, _, _, h⟩
+  · rw [h]; exact Quiet.refl _
+  · rw [h]; exact Quiet.refl _
+  · rw [h]; exact q_openCore s ch ok
 
 -- ------------------------------------------------------------------ consequences of bookkeeping + agreement
 
